@@ -2629,12 +2629,15 @@ int32 matrixValidateCertsExt(psPool_t *pool, psX509Cert_t *subjectCerts,
                     if (opts->nameType == NAME_TYPE_ANY ||
                         opts->nameType == NAME_TYPE_SAN_IP_ADDRESS)
                     {
-                        Snprintf(ip, 15, "%u.%u.%u.%u",
+                        if (n->dataLen != 4)
+                        {
+                            break; /* Only IPv4 expected names supported. */
+                        }
+                        Snprintf(ip, sizeof(ip), "%u.%u.%u.%u",
                             (unsigned char) (n->data[0]),
                             (unsigned char ) (n->data[1]),
                             (unsigned char ) (n->data[2]),
                             (unsigned char ) (n->data[3]));
-                        ip[15] = '\0';
                         if (Strcmp(ip, expectedName) == 0)
                         {
                             return rc;
